@@ -204,7 +204,16 @@ func crashRec(r *core.Report, cs *crashScope, extra func(site ssa.CallInstructio
 				if progress == "" && extra != nil {
 					progress = extra(e.Site, g)
 				}
-				if progress == "" && compAxiom != "" {
+				// the composition invariant helps only traversals that carry an instance (a value being
+				// checked or decoded): their other descents consume part of it. Document validation has no
+				// instance and must rely on its own visited chain.
+				hasInstance := false
+				for _, prm := range g.Params {
+					if carriesData(prm.Type()) {
+						hasInstance = true
+					}
+				}
+				if progress == "" && compAxiom != "" && hasInstance {
 					comp := true
 					for _, part := range strings.Split(field, "|") {
 						switch part {
@@ -748,4 +757,23 @@ func compositionAcyclic(p *core.Prog) string {
 		return ""
 	}
 	return "document validation rejects a schema that includes itself through oneOf/anyOf/allOf/not (Schema.validate calls " + checker.Name() + ", verified to scan its path and to follow exactly those four fields): below a validated schema the composition graph is acyclic, so this descent, which keeps the instance, visits each schema at most once before a properties/items edge consumes part of the instance"
+}
+
+// carriesData: the type holds decoded data or raw input (any, string, io.Reader, or maps/slices of
+// those) -- not options, functions or pieces of the document model.
+func carriesData(t types.Type) bool {
+	switch u := t.Underlying().(type) {
+	case *types.Interface:
+		return u.Empty() || t.String() == "io.Reader"
+	case *types.Basic:
+		return u.Info()&types.IsString != 0
+	case *types.Map:
+		return carriesData(u.Elem())
+	case *types.Slice:
+		if b, ok := u.Elem().Underlying().(*types.Basic); ok && b.Kind() == types.Byte {
+			return true
+		}
+		return carriesData(u.Elem())
+	}
+	return false
 }
